@@ -48,7 +48,10 @@ L3 == UNION {{Or(a, And(b, c)), Or(And(a, b), c), And(a, Or(b, c)), And(Or(a, b)
 Logicals == Cmps \cup L2 \cup L3
 CondCase(c, a, b, pre, post) ==
   [kind |-> "cond", fmin |-> pre \o PrCond(Cond(c, a, b)) \o post, ffull |-> pre \o PrCondFull(Cond(c, a, b)) \o post,
-   inner |-> CondVal(Cond(c, a, b))[1], innerden |-> CondVal(Cond(c, a, b))[2], wrap |-> pre]
+   inner |-> CondVal(Cond(c, a, b))[1], innerden |-> CondVal(Cond(c, a, b))[2], wrap |-> pre,
+   \* C14: the derivative of a conditional expression is the conditional expression of the derivatives of its branches
+   dxi |-> CondVal(Cond(c, D(a, "x"), D(b, "x")))[1], dyi |-> CondVal(Cond(c, D(a, "y"), D(b, "y")))[1],
+   dden |-> CondVal(Cond(c, D(a, "x"), D(b, "x")))[2] * CondVal(Cond(c, D(a, "y"), D(b, "y")))[2]]
 Conds == {CondCase(c, Num(10), Num(20), "", "") : c \in Logicals}
          \cup {CondCase(c, Var("x"), Bin("+", Var("y"), Num(1)), "", "") : c \in L2 \cup L3}
          \cup {CondCase(c, Num(1), Neg(Num(1)), "2*(", ")") : c \in Reps \cup L3}
@@ -71,6 +74,6 @@ Deps == {c \in {DepCase(g, env) : g \in DTrees, env \in Envs} : c.ok0}
 Number(S) == LET s == SetToSeq(S) IN [i \in 1..Len(s) |-> [id |-> i] @@ s[i]]
 ASSUME Theorems
 ASSUME ndJsonSerialize(IOEnv.OUT, Number(Arith \cup Fn \cup Reject \cup Silent \cup Conds \cup Deps))
-ASSUME \A c \in Conds : c.innerden = 1
+ASSUME \A c \in Conds : c.innerden = 1 /\ c.dden = 1
 ASSUME PrintT(<<"GEN", Cardinality(Arith), Cardinality(Fn), Cardinality(Reject), Cardinality(Conds), Cardinality(Deps)>>)
 =============================================================================
